@@ -86,6 +86,19 @@ def obligations(tier, seed):
     # a single PRIME factor just above max(T): the factor must not be narrowed to T before the range check
     for rep, pr in (('u8', 257), ('i8', 131), ('u16', 65537), ('i16', 32771), ('u32', 4294967311), ('i32', 2147483659)):
         facts.append(('rep_%s_prime_above' % rep, 'au::representable_in<%s>(au::mag<%dULL>())' % (CT[rep], pr), 0))
+    # primes above 2^63 (the property's grid goes up to 2^64-59): the base must not wrap when it is widened to intmax_t for a signed T
+    for rep in ('i8', 'i16', 'i32', 'i64'):
+        facts.append(('rep_%s_prime_2_64_m59' % rep, 'au::representable_in<%s>(au::mag<18446744073709551557ULL>())' % CT[rep], 0))
+    facts += [('rep_i64_prime_above', 'au::representable_in<int64_t>(au::mag<9223372036854775837ULL>())', 0),
+              ('rep_u64_prime_2_64_m59', 'au::representable_in<uint64_t>(au::mag<18446744073709551557ULL>())', 1),
+              ('val_u64_prime_2_64_m59', '(au::get_value<uint64_t>(au::mag<18446744073709551557ULL>()) == 18446744073709551557ULL)', 1),
+              ('rep_i64_prime_2_64_m59_squared', 'au::representable_in<int64_t>(au::pow<2>(au::mag<18446744073709551557ULL>()))', 0),
+              # a magnitude is never zero: a floating T either cannot represent it or yields a strictly positive value
+              ('val_f32_1e_m60_not_zero', '(au::detail::get_value_result<float>(au::pow<-60>(au::mag<10>())).outcome != au::detail::MagRepresentationOutcome::OK || '
+                                          'au::detail::get_value_result<float>(au::pow<-60>(au::mag<10>())).value > 0.0f)', 1),
+              ('val_f64_1e_m400_not_zero', '(au::detail::get_value_result<double>(au::pow<-400>(au::mag<10>())).outcome != au::detail::MagRepresentationOutcome::OK || '
+                                           'au::detail::get_value_result<double>(au::pow<-400>(au::mag<10>())).value > 0.0)', 1),
+              ('val_f32_1e_m30_positive', '(au::get_value<float>(au::pow<-30>(au::mag<10>())) > 0.0f)', 1)]
     facts += [('rep_u64_2_64', 'au::representable_in<uint64_t>(au::pow<64>(au::mag<2>()))', 0), ('rep_u64_2_63', 'au::representable_in<uint64_t>(au::pow<63>(au::mag<2>()))', 1),
               ('rep_i64_2_63', 'au::representable_in<int64_t>(au::pow<63>(au::mag<2>()))', 0),
               ('rep_f32_2_127', 'au::representable_in<float>(au::pow<127>(au::mag<2>()))', 1), ('rep_f32_2_128', 'au::representable_in<float>(au::pow<128>(au::mag<2>()))', 0),
@@ -103,6 +116,7 @@ def obligations(tier, seed):
               ('val_i64_prod', '(au::get_value<int64_t>(au::pow<18>(au::mag<10>())) == 1000000000000000000LL)', 1)]
     ws = []; checks = []
     for (nm, expr, exp) in facts:
+        if nm.endswith('_not_zero'): continue      # decided as static probes only (known finding KF-C11-1 is identified by the probe)
         w = Wrapper('w_fact_' + nm, 'int32_t', [], 'constexpr bool vf_c = (%s); return (int)vf_c;' % expr)
         ws.append(w); checks.append('  CHECK(%s() == %d, "%s");' % (w.name, exp, nm))
     step = 12
@@ -114,7 +128,7 @@ def obligations(tier, seed):
                       functions_under_contract=('au::representable_in', 'au::get_value', 'au::is_integer', 'au::is_rational', 'au::numerator', 'au::denominator', 'au::integer_part')))
     # ---- the same boundary facts as supporting static facts (one probe TU each): a hard error or a different answer is attributed to its instance
     HDR = '#include "au/magnitude.hh"\n#include <cstdint>\n#define VF_STATIC_FACT(c) static_assert(c, "VF_STATIC_FACT")\n'
-    sel = facts if tier == 'thorough' else [f for f in facts if f[0].startswith(('rep_u8', 'rep_i8', 'val_u8', 'val_i64_max', 'val_u64', 'rep_f32', 'rep_f64_2', 'rep_u64', 'rep_i64_2', 'val_i16')) or f[0].endswith('prime_above')]
+    sel = facts if tier == 'thorough' else [f for f in facts if f[0].startswith(('rep_u8', 'rep_i8', 'val_u8', 'val_i64_max', 'val_u64', 'rep_f32', 'rep_f64_2', 'rep_u64', 'rep_i64_2', 'val_i16', 'rep_i64_prime', 'rep_i32_prime', 'val_f32_1e', 'val_f64_1e')) or f[0].endswith('prime_above')]
     for (nm, expr, exp) in sel:
         obs.append(Ob(id='C11.static.%s' % nm, prop='C11', group='C11.static', prelude='', wrappers=[], inputs=[],
                       body=HDR + 'VF_STATIC_FACT((%s) == %s);\nint main() {}\n' % (expr, 'true' if exp else 'false'), kind='S',
